@@ -309,7 +309,7 @@ class Cls(object):
     """one covered class in one context"""
 
     def __init__(self, name, coq, fmt, new, build, view, whole=False, reject=(), hdr=None, weight=1,
-                 ext_ctx=None, canon=None, fix=None):
+                 ext_ctx=None, canon=None, fix=None, ders=None):
         self.name, self.coq, self.fmt = name, coq, fmt
         self.new, self.build, self.view = new, build, view
         self.whole = whole            # the class requires the whole buffer to be consumed
@@ -317,6 +317,7 @@ class Cls(object):
         self.hdr = hdr                # handshake type consumed by the dispatcher before parse()
         self.weight = weight
         self.ext_ctx = ext_ctx
+        self.ders = ders                      # value -> the X.509 DER strings it carries (content outside the model)
         self.fix = fix or (lambda v: v)       # derived fields a generated value must respect (NPN padding)
         self.canon = canon or (lambda v: v)   # documented normalisation done by parse (integers: leading zeros)
 
@@ -417,7 +418,8 @@ def build_table():
     x509 = CertificateType.x509
     add('Certificate(tls1.2)', 'fmt_Certificate12', Msg(11, List(3, CERT12)), lambda: M.Certificate(x509, (3, 3)),
         lambda v: M.Certificate(x509, (3, 3)).create(X509s(v[1]) if v[1] else None),
-        lambda o: (11, [B(c.writeBytes()) for c in (o.cert_chain.x509List if o.cert_chain else [])]), hdr=11)
+        lambda o: (11, [B(c.writeBytes()) for c in (o.cert_chain.x509List if o.cert_chain else [])]), hdr=11,
+        ders=lambda v: v[1])
 
     def c13_build(v):
         ctx, entries = v[1]
@@ -429,7 +431,7 @@ def build_table():
     add('Certificate(tls1.3)', 'fmt_Certificate13', Msg(11, Seq(Var(1), List(3, CertificateEntryF))),
         lambda: M.Certificate(x509, (3, 4)), c13_build,
         lambda o: (11, (B(o.certificate_request_context), [cert_entry_view(e) for e in o.certificate_list])),
-        hdr=11, ext_ctx='CtxCert')
+        hdr=11, ext_ctx='CtxCert', ders=lambda v: [d for d, _ in v[1][1]])
     for tls12 in (True, False):
         ver = (3, 3) if tls12 else (3, 1)
         f = Msg(13, fseq([VarList(1, 1), VarTuples(1, 2, 2), List(2, Var(2))]) if tls12
@@ -586,7 +588,8 @@ def build_table():
             f += [int(o.encrypt_then_mac), int(o.extended_master_secret), B(o.server_name)]
         return Tagged(o.version, tup(f))
     add('SessionTicketPayload', 'fmt_SessionTicketPayload', ('Tag', 2, stp_sel, [0, 1, 2]), M.SessionTicketPayload,
-        stp_build, stp_view, whole=True, reject=(ValueError,))
+        stp_build, stp_view, whole=True, reject=(ValueError,),
+        ders=lambda tv: [d for d, _ in untup(tv.v, {1: 7, 2: 10}[tv.t])[6]] if tv.t in (1, 2) else [])
 
     # ---- every extension class on its own, in every context
     from tlslite.extensions import TLSExtension
